@@ -121,7 +121,7 @@ def _client_case(ops, impl):
                 wantc = 0 if st["noclose"] else 1
                 if st["connclose"] != wantc:
                     st["viol"].append((i, "C15", f"connection closed {st['connclose']} times, expected {wantc}"))
-            continue
+            # (the handler completions reported on this line are accounted below)
         if t[1] == "do":
             st["delivered"].append(t[4])
             if f.get("do") == "before-callback":
@@ -495,7 +495,7 @@ PROPS = {
                      "Stun.Client.retransmit_split2",
                      "Stun.Client.retransmit_split", "Stun.Client.start_split", "Stun.ClientProofs.run_spec", "Stun.ClientProofs.run_eq",
                      "Stun.ClientProofs.callback_spec", "Stun.ClientProofs.retransmit_spec"],
-        "streams": ["client-hist"], "level": "proof", "predicate": pred_client("C10"),
+        "streams": ["client-hist", "client-conc"], "level": "proof", "predicate": pred_client("C10"),
         "tagsets": [["verif"], ["verif", "race"]],
         "rule": CLIENT_RULE + "; Client.Do with the response handled while Start is still inside Write and a callback that "
                 "takes 10 ms: Do must return, and only after the callback finished",
